@@ -502,6 +502,20 @@ func relevant(o *Obligation) {
 }
 
 func discharge(o *Obligation, dir string, axioms []*Term, secs int, thorough bool) {
+	if !o.lifted {
+		o.lifted = true
+		for i, h := range o.Hyps {
+			o.Hyps[i] = liftTyinv(h, true)
+		}
+		if o.Cover {
+			o.Goal = liftTyinv(o.Goal, true)
+		} else {
+			o.Goal = stripTyinv(o.Goal)
+		}
+		for i, a := range o.Axioms {
+			o.Axioms[i] = liftTyinv(a, true)
+		}
+	}
 	shape(o)
 	relevant(o)
 	h := sha1.Sum([]byte(o.Name))
